@@ -194,131 +194,79 @@ theorem continuous_bookkeeping {cfg : Cfg} {srcIds : Nat → List Nat} {contIds 
 
 /-! ## The worker loop: nothing is left behind -/
 
-/-- a task that was taken from a queue is held by a thread that executes it or is about to: no thread
-leaves the loop with a task (a thread that left holds nothing, `Th.exited` carries no task) -/
+/-- a task that was taken from a queue is held by exactly one thread, which executes it or is about to;
+conversely a thread only holds running tasks.  Holds for the fixed loop condition
+`while (global_run_flag || current_index != NO_TASK)` with any sources, and for the old condition
+`while (global_run_flag)` (radiation-hydrodynamics loop) without a continuous source -/
 theorem running_task_has_live_holder {cfg : Cfg} {srcIds : Nat → List Nat} {contIds : List Nat}
-    (h0 : Start cfg srcIds contIds) {ls : List LLabel} {s : LState} (hrun : lrun cfg (linit srcIds contIds) ls = some s)
-    (t : Nat) (k : Kind) (ht : s.p.tasks t = some ⟨k, .running⟩) :
-    ∃ i, s.th i = .exec t ∨ s.th i = .top (some t) :=
-  (loop_reachable h0 hrun).holder t k ht
+    (h0 : Start cfg srcIds contIds) (hloop : cfg.loopFixed = true ∨ contIds = [])
+    {ls : List LLabel} {s : LState} (hrun : lrun cfg (linit srcIds contIds) ls = some s) :
+    (∀ t k, s.p.tasks t = some ⟨k, .running⟩ → ∃ i, s.th i = .exec t ∨ s.th i = .top (some t)) ∧
+    (∀ i t, s.th i = .exec t ∨ s.th i = .top (some t) →
+      (∃ k, s.p.tasks t = some ⟨k, .running⟩) ∧ ∀ j, s.th j = .exec t ∨ s.th j = .top (some t) → j = i) := by
+  obtain ⟨hi, ho⟩ := loop_reachable h0 hloop hrun
+  refine ⟨hi.holder, ?_⟩
+  intro i t hit
+  have hheld : ∀ j, s.th j = .exec t ∨ s.th j = .top (some t) → held (s.th j) = some t := by
+    intro j hj; rcases hj with e | e <;> (rw [e]; rfl)
+  obtain ⟨h1, h2⟩ := ho.own i t (hheld i hit)
+  exact ⟨h1, fun j hj => h2 j (hheld j hj)⟩
 
-/-- a thread leaves the loop only from the loop test without a task and with the flag cleared -/
-theorem exit_only_without_task {cfg : Cfg} {s s' : LState} {l : LLabel} {i : Nat} (h : lstep cfg s l = some s')
-    (hnow : s'.th i = .exited) (hbefore : s.th i ≠ .exited) : s.th i = .top none ∧ s.p.run = false := by
-  have key : ∀ (j : Nat) (v : Th), v ≠ .exited → upd s.th j v i = .exited → False := by
-    intro j v hv e
-    by_cases hj : i = j
-    · subst hj; rw [upd_same] at e; exact hv e
-    · rw [upd_other _ _ _ hj] at e; exact hbefore e
-  cases l with
-  | main l =>
-    simp only [lstep] at h
-    split at h
-    · split at h
-      · injection h with h; subst h; exact absurd hnow hbefore
-      · cases h
-    · split at h
-      · injection h with h; subst h; exact absurd hnow hbefore
-      · cases h
-    · cases h
-  | startPoll j got =>
-    simp only [lstep] at h
-    split at h
-    · split at h
-      · injection h with h; subst h; exact (key j _ (by intro e; cases e) hnow).elim
-      · cases h
-    · cases h
-  | topExit j =>
-    simp only [lstep] at h
-    split at h
-    · rename_i hth
-      split_ifs at h with hr
-      injection h with h; subst h
-      by_cases hj : i = j
-      · subst hj; exact ⟨hth, by simpa using hr⟩
-      · simp only [upd_other _ _ _ hj] at hnow; exact absurd hnow hbefore
-    · cases h
-  | topGo j =>
-    simp only [lstep] at h
-    split at h
-    · injection h with h; subst h; exact (key j _ (by intro e; cases e) hnow).elim
-    · cases h
-  | topPoll j got =>
-    simp only [lstep] at h
-    split at h
-    · split_ifs at h
-      split at h
-      · injection h with h; subst h
-        exact (key j _ (by cases got <;> (intro e; cases e)) hnow).elim
-      · cases h
-    · cases h
-  | prem j g t' =>
-    simp only [lstep] at h
-    split at h
-    · split_ifs at h
-      split at h
-      · injection h with h; subst h; exact absurd hnow hbefore
-      · cases h
-    · cases h
-  | work j l =>
-    simp only [lstep] at h
-    split at h
-    · rename_i t t0 fin hth hw
-      by_cases htt : t = t0
-      · rw [if_pos htt] at h
-        split at h
-        · injection h with h; subst h
-          simp only at hnow
-          split_ifs at hnow
-          · exact (key j _ (by intro e; cases e) hnow).elim
-          · exact absurd hnow hbefore
-        · cases h
-      · rw [if_neg htt] at h; cases h
-    · cases h
-  | enq j t =>
-    simp only [lstep] at h
-    split at h
-    · split_ifs at h
-      split at h
-      · injection h with h; subst h; exact absurd hnow hbefore
-      · cases h
-    · cases h
-  | innerPoll j got =>
-    simp only [lstep] at h
-    split at h
-    · split_ifs at h
-      split at h
-      · injection h with h; subst h
-        exact (key j _ (by cases got <;> (intro e; cases e)) hnow).elim
-      · cases h
-    · cases h
-  | checkYes j =>
-    simp only [lstep] at h
-    split at h
-    · split at h
-      · injection h with h; subst h; exact (key j _ (by intro e; cases e) hnow).elim
-      · cases h
-    · cases h
-  | checkNo j got =>
-    simp only [lstep] at h
-    split at h
-    · split_ifs at h
-      split at h
-      · injection h with h; subst h; exact (key j _ (by intro e; cases e) hnow).elim
-      · cases h
-    · cases h
+/-- `termination_two_reads_sound`: the termination test of the worker loop reads `_buffers->is_empty()`
+and `num_photon_done` at two different moments (labels `checkEmpty`, `checkYes`; other threads act in
+between).  Whenever the flag is cleared nevertheless all requested packets are terminated and no buffer,
+active buffer, source or continuous-buffer content exists (the stale first read cannot do harm) -/
+theorem termination_two_reads_sound {cfg : Cfg} {srcIds : Nat → List Nat} {contIds : List Nat}
+    (h0 : Start cfg srcIds contIds) (hloop : cfg.loopFixed = true ∨ contIds = [])
+    {ls : List LLabel} {s : LState} (hrun : lrun cfg (linit srcIds contIds) ls = some s) (hflag : s.p.run = false) :
+    s.p.done.length = cfg.N ∧ AllDone cfg s.p := by
+  have hr := (loop_reachable h0 hloop hrun).1.reach
+  have hd := hr.flag hflag
+  exact ⟨by rw [start_total h0] at hd; exact hd, reach_allDone hr hd⟩
+
+/-- `no_exit_with_task`: a thread never leaves the loop holding a task -- for the fixed loop by the loop
+condition itself, for the old condition `while (global_run_flag)` because without a continuous source no
+task exists any more once the flag is cleared -/
+theorem no_exit_with_task {cfg : Cfg} {srcIds : Nat → List Nat} {contIds : List Nat}
+    (h0 : Start cfg srcIds contIds) (hloop : cfg.loopFixed = true ∨ contIds = [])
+    {ls : List LLabel} {s s' : LState} (hrun : lrun cfg (linit srcIds contIds) ls = some s)
+    {i : Nat} (hstep : lstep cfg s (.topExit i) = some s') : s.th i = .top none := by
+  obtain ⟨hi, ho⟩ := loop_reachable h0 hloop hrun
+  simp only [lstep] at hstep
+  split at hstep
+  · assumption
+  · rename_i t hth
+    split_ifs at hstep with hc
+    exfalso
+    have hf : cfg.loopFixed = false := by
+      cases hfx : cfg.loopFixed with
+      | true => rw [hfx] at hc; simp at hc
+      | false => rfl
+    have hr : s.p.run = false := by
+      cases hrx : s.p.run with
+      | true => rw [hrx] at hc; simp at hc
+      | false => rfl
+    obtain ⟨k, hk⟩ := (ho.own i t (by rw [hth]; rfl)).1
+    have had := reach_allDone hi.reach (hi.reach.flag hr)
+    have hs := (ho.nocont hf).2 t
+    rw [hk] at hs
+    rcases had.tasks t _ hk with ⟨c, hc'⟩ | ⟨c, n, hc', _⟩
+    · simp only at hc'; subst hc'; simp at hs
+    · simp only at hc'; subst hc'; simp at hs
+  · cases hstep
 
 /-- `nothing_left_behind`: when every thread has left the loop (threads that never started count as
 not started), all requested packets are terminated exactly once and NOTHING is left for the next
 iteration: no task in the task table (so no queue entry and no held lock either), no photon buffer in
 use, no active buffer, nothing in the sources or in the continuous-source buffers -/
 theorem nothing_left_behind {cfg : Cfg} {srcIds : Nat → List Nat} {contIds : List Nat} (h0 : Start cfg srcIds contIds)
+    (hloop : cfg.loopFixed = true ∨ contIds = [])
     {ls : List LLabel} {s : LState} (hrun : lrun cfg (linit srcIds contIds) ls = some s)
     (hall : ∀ i, s.th i = .exited ∨ s.th i = .start) (hex : ∃ i, s.th i = .exited) :
     s.p.done.length = cfg.N ∧ (∀ p, s.p.done.count p = if p < cfg.N then 1 else 0) ∧
     (∀ t, s.p.tasks t = none) ∧ (∀ b, s.p.pool b = none) ∧ (∀ g i, s.p.active g i = none) ∧
     (∀ k, s.p.cont k = []) ∧ (∀ i, i < cfg.nsrc → s.p.srcLeft i = []) ∧ s.p.contPool = [] := by
-  have hi := loop_reachable h0 hrun
+  have hi := (loop_reachable h0 hloop hrun).1
   obtain ⟨i0, hi0⟩ := hex
   have hflag := hi.exitFlag i0 hi0
   have hd := hi.reach.flag hflag
@@ -371,10 +319,10 @@ theorem next_iteration_starts_clean (plot : Bool) (executed : Nat → Bool) (s :
 /-- without `--task-plot` the worker loop itself leaves no slot locked (so even the cheaper
 `clear_fast` would do) ... -/
 theorem loop_end_clean_without_plot {cfg : Cfg} {srcIds : Nat → List Nat} {contIds : List Nat} (h0 : Start cfg srcIds contIds)
-    {ls : List LLabel} {s : LState} (hrun : lrun cfg (linit srcIds contIds) ls = some s)
+    (hloop : cfg.loopFixed = true ∨ contIds = []) {ls : List LLabel} {s : LState} (hrun : lrun cfg (linit srcIds contIds) ls = some s)
     (hall : ∀ i, s.th i = .exited ∨ s.th i = .start) (hex : ∃ i, s.th i = .exited) (executed : Nat → Bool) (t : Nat) :
     spaceClearFast (lockedAtLoopEnd false executed s.p) t = false := by
-  have := (nothing_left_behind h0 hrun hall hex).2.2.1 t
+  have := (nothing_left_behind h0 hloop hrun hall hex).2.2.1 t
   simp [spaceClearFast, lockedAtLoopEnd, this]
 
 /-- ... but with `--task-plot` `clear_fast` leaves every executed task locked for the next iteration:
@@ -382,6 +330,31 @@ the full reset is necessary there -/
 theorem clear_fast_leaks_with_plot (executed : Nat → Bool) (s : State) (t : Nat) (ht : executed t = true) :
     spaceClearFast (lockedAtLoopEnd true executed s) t = true := by
   simp [spaceClearFast, lockedAtLoopEnd, ht]
+
+/-! ## The old loop condition with a continuous source loses a task (the defect fixed by f78e960) -/
+
+/-- one subgrid, no neighbours, a continuous source with one packet, two blocks, loop `while (global_run_flag)` -/
+def oldCfg : Cfg :=
+  { N := 1, nsrc := 0, srcSub := fun _ => 0, norig := 1, nblocks := 2, ngb := fun _ _ => none, o2i := fun i => i,
+    reemission := false, bufCap := 2, taskCap := 5, loopFixed := false }
+
+/-- thread 0 executes everything; thread 1 takes the (packet-free) flush task of block 1 in the else branch
+of the termination test, then finds the flag cleared at the loop test -/
+def oldRun : List LLabel :=
+  [.main (.launchCont 0), .startPoll 0 (some 0), .topGo 0, .startPoll 1 none, .topPoll 1 none,
+   .work 0 (.contGen 0 0 1), .work 0 (.contFinish 0 [1, 2]), .innerPoll 0 (some 1), .work 0 (.flushOne 1 0 0 3),
+   .checkNo 1 (some 2), .work 0 (.flushFinish 1), .innerPoll 0 (some 3), .work 0 (.execTraverse 3 [1] []),
+   .innerPoll 0 none, .checkEmpty 0, .checkYes 0, .topExit 0, .topExit 1]
+
+/-- `old_loop_loses_flush_task`: with the old loop condition and a continuous source there is an execution
+in which both threads have left the loop, all packets are terminated, and the flush task of block 1 is
+still locked by a thread that is gone (never executed, its lock never released) -/
+theorem old_loop_loses_flush_task :
+    ((lrun oldCfg (linit (fun _ => []) [0]) oldRun).map fun s => (s.th 0, s.th 1, s.p.done, s.p.tasks 2))
+      = some (.exited, .exited, [0], some ⟨.flush 1, .running⟩) := by decide
+
+/-- the same schedule is impossible with the fixed loop condition: thread 1 cannot leave -/
+example : lrun { oldCfg with loopFixed := true } (linit (fun _ => []) [0]) oldRun = none := by decide
 
 /-! ## Non-vacuity: a complete small iteration (re-emission and a premature launch included) -/
 
@@ -415,9 +388,21 @@ def exLoopRun : List LLabel :=
   [.main (.launchBatch 0 0), .startPoll 0 (some 0), .startPoll 1 none, .topGo 0, .work 0 (.execSource 0 0 1), .enq 0 1,
    .innerPoll 0 (some 1), .work 0 (.execTraverse 1 [0, 0, 1] [⟨1, 2, 2⟩]), .innerPoll 0 none,
    .prem 1 0 2, .topPoll 1 (some 2), .work 1 (.execReemit 2 [true, false] 3), .enq 1 3, .innerPoll 1 (some 3),
-   .work 1 (.execTraverse 3 [1] []), .innerPoll 1 none, .checkYes 1, .topExit 1, .checkYes 0, .topExit 0]
+   .work 1 (.execTraverse 3 [1] []), .innerPoll 1 none, .checkEmpty 1, .checkYes 1, .topExit 1, .checkEmpty 0, .checkYes 0, .topExit 0]
 
 example : ((lrun exCfg (linit (fun _ => [0, 1, 2]) []) exLoopRun).map fun s => (s.th 0, s.th 1, s.p.done, s.p.run))
+    = some (.exited, .exited, [2, 1, 0], false) := by decide
+
+/-- thread 1 reads `is_empty()` (true) before anything has started and reads the done counter only after
+thread 0 has processed the whole iteration: the flag is cleared on a stale first read -/
+def exStaleRun : List LLabel :=
+  [.main (.launchBatch 0 0), .startPoll 1 none, .topPoll 1 none, .checkEmpty 1,
+   .startPoll 0 (some 0), .topGo 0, .work 0 (.execSource 0 0 1), .enq 0 1, .innerPoll 0 (some 1),
+   .work 0 (.execTraverse 1 [0, 0, 1] [⟨1, 2, 2⟩]), .innerPoll 0 none, .checkNo 0 none, .prem 0 0 2, .topPoll 0 (some 2),
+   .work 0 (.execReemit 2 [true, false] 3), .enq 0 3, .innerPoll 0 (some 3), .work 0 (.execTraverse 3 [1] []),
+   .innerPoll 0 none, .checkYes 1, .topExit 1, .checkEmpty 0, .checkYes 0, .topExit 0]
+
+example : ((lrun exCfg (linit (fun _ => [0, 1, 2]) []) exStaleRun).map fun s => (s.th 0, s.th 1, s.p.done, s.p.run))
     = some (.exited, .exited, [2, 1, 0], false) := by decide
 
 /-- the capacity hypothesis of `no_stuck` is satisfiable (start of the example iteration) -/
